@@ -70,7 +70,7 @@ def fails_now(prog: list) -> bool:
 def main() -> None:
     run = Run("C01", "translation_validation")
     run.forbid()
-    run.require_vo(["Ssb/EquivSound.v", "Ssb/Machine.v", "Lang/SrcSem.v", "Ssb/Silent.v", "Comp/PopSem.v", "Comp/RemoveSem.v", "Comp/TableRight.v", "Comp/BackEnd.v", "Comp/EraseSem.v", "Comp/FinalizeSem.v"])
+    run.require_vo(["Ssb/EquivSound.v", "Ssb/Machine.v", "Lang/SrcSem.v", "Ssb/Silent.v", "Comp/PopSem.v", "Comp/RemoveSem.v", "Comp/TableRight.v", "Comp/BackEnd.v", "Comp/EraseSem.v", "Comp/FinalizeSem.v", "Comp/ActSem.v", "Comp/StripSem.v"])
     run.props("Props/TablesAgree.v")
     run.props("Props/C01.v")
     n_random = 1500 if run.tier == "quick" else 20000
@@ -132,9 +132,11 @@ def main() -> None:
             bwhere.append(i)
             bcmds.append([A("finalize_ok"), pops_sexp(cap["fin_in"])])
             bwhere.append(i)
+            bcmds.append([A("strip_ok"), pops_sexp(cap["strip_in"])])
+            bwhere.append(i)
     prem_first = None
     for i, b in zip(bwhere, run_driver(bcmds)):
-        good = bool(b.get("backend_ok")) or bool(b.get("finalize_ok"))
+        good = bool(b.get("backend_ok")) or bool(b.get("finalize_ok")) or bool(b.get("strip_ok"))
         # a source with a cycle of silent moves is outside the property; there the premise rightly fails
         if not good and i in {j for j, eq in zip(idx, eqs) if eq["r"] == "cycle"}:
             run.count("backend-theorem premises: silent cycle (outside the property)")
